@@ -104,7 +104,8 @@ def gen(seed, idx, tier):
             scn["meta"]["slow_rel"] = rel
     scn["twin_units"] = [lu, fu, cu]
     scn["shared_options"] = rnd.random() < 0.3
-    return scen.maybe_restored(rnd, scn, 0.15)
+    # the same physical displacement (stated in units of xi) of the meshed device in both unit systems
+    return scen.maybe_moved(rnd, scen.maybe_restored(rnd, scn, 0.15), 0.12)
 
 
 class SIInputs:
@@ -238,7 +239,7 @@ def run(scn):
         if shared:
             u_before = (h1.solution.field_units, h1.solution.current_units)
             K_before = h1.solution.current_density.to("A/m").magnitude.copy()
-        sim2, h2 = run_scenario(s2, checkers=[ck2], mesh_from=h1.device.mesh, options_from=sim1.options if shared else None)
+        sim2, h2 = run_scenario(s2, checkers=[ck2], mesh_from=(getattr(sim1, "base_mesh", None) if scn.get("device_moved") else h1.device.mesh), options_from=sim1.options if shared else None)
         sims.append(sim2)
         V = [v for v in sim1.violations if v["rule"] in ("terminal-flux-SI", "kernel-vs-direct")] + [v for v in sim2.violations if v["rule"] == "terminal-flux-SI"]
         V += ck1.flux_per_triangle(sim1, h1) + ck2.flux_per_triangle(sim2, h2)
